@@ -1,5 +1,6 @@
 import PersimVerif.Lemmas.GraphExtra
 import PersimVerif.Lemmas.GraphDispatch
+import PersimVerif.Lemmas.GraphUnique
 
 /-!
 # C17 — mGH accepts every graph representation and degrades gracefully
@@ -444,6 +445,86 @@ theorem old_fallback_not_square :
     (restrictOld (bfsAll (adjOf G32))).all (fun r => r.length == 5) = true ∧
     hasInf (restrictOld (bfsAll (adjOf G32))) = true ∧
     makeDistOld G32 = .error .tooLarge := by decide
+
+/-! ### relabelling a disconnected graph
+
+  "Its largest connected component" is well defined exactly when one component is strictly larger than all
+  others (`UniqueLargest`; every connected graph qualifies).  Then the fallback commutes with every
+  relabelling.  With a TIE between largest components the statement leaves the choice open, the code takes
+  the one containing the smallest vertex, and a relabelling may select another, non-isometric one
+  (`tie_relabel_selects_other_component`): that is the one exception to "under any vertex relabelling". -/
+
+/-- **`relabel_unique_largest`**: if some component of the graph is strictly larger than every other one,
+    then for EVERY relabelling `p` the relabelled graph `A[p][:, p]` yields the relabelled block: the same
+    warning flag, the same dtype, and the distance matrix `r.dist[q][:, q]` for a permutation `q` of the
+    block's positions — namely the one under which position `a` of the new block is the original vertex
+    `p[kept'(a)] = kept(q[a])`, i.e. exactly the same original vertices are kept. -/
+theorem relabel_unique_largest (A : Mat) (hsq : isSquare A = true) (p : List Nat)
+    (hp : p.Perm (List.range A.length)) (r : DistResult) (h : makeDist A = .ok r)
+    (hu : UniqueLargest (adjOf A)) :
+    ∃ q : List Nat, q.Perm (List.range r.dist.length) ∧
+      makeDist (sub 0 p A) = .ok ⟨sub 0 q r.dist, r.warned, r.intType⟩ ∧
+      ∀ a, a < r.dist.length →
+        (kept A).getD (q.getD a 0) 0 = p.getD ((kept (sub 0 p A)).getD a 0) 0 := by
+  obtain ⟨hd, hw, ht⟩ := (makeDist_ok_iff A hsq r).1 h
+  have hsym := adjOf_Symm A
+  have hp' : p.Perm (List.range (adjOf A).length) := by simpa using hp
+  have hadj : adjOf (sub 0 p A) = sub false p (adjOf A) :=
+    adjOf_sub A p (fun x hx => List.mem_range.1 (hp.mem_iff.1 hx))
+  have hlen : r.dist.length = (selected (bfsAll (adjOf A))).length := by rw [hd, blockOf_length]
+  have hq := blockPerm_perm (adjOf A) p hp' hsym hu
+  refine ⟨blockPerm (adjOf A) p, by rw [hlen]; exact hq, ?_, ?_⟩
+  · apply (makeDist_ok_iff (sub 0 p A) (isSquare_sub_perm A hsq p hp) _).2
+    refine ⟨?_, ?_, ?_⟩
+    · show sub 0 (blockPerm (adjOf A) p) r.dist = _
+      rw [hadj, blockOf_sub_unique (adjOf A) p hp' hsym hu, hd]
+    · show r.warned = _
+      rw [hadj, hasInf_sub (adjOf A) p hp' hsym, hw]
+    · show optimalIntType _ = .ok r.intType
+      rw [hadj, blockOf_sub_unique (adjOf A) p hp' hsym hu,
+        maxEntry_sub_perm (blockOf (adjOf A)) _ (blockOf_length (adjOf A)) (blockOf_row_length (adjOf A)) _ hq]
+      exact ht
+  · intro a ha
+    have := vtx_blockPerm (adjOf A) p hp' hsym hu (hlen ▸ ha)
+    unfold kept
+    rw [hadj]
+    exact this
+
+/-- a connected graph has a (trivially) unique largest component, so `relabel_unique_largest` contains
+    `relabel_connected` -/
+theorem connected_uniqueLargest (A : Mat) (hsq : isSquare A = true) (hc : Connected (adjOf A)) :
+    UniqueLargest (adjOf A) := by
+  have hn : 0 < (adjOf A).length := by simpa using ((isSquare_iff A).1 hsq).1
+  refine ⟨0, hn, fun u hu hr => ?_⟩
+  obtain ⟨k, hw⟩ := hc 0 u hn hu
+  obtain ⟨d, _, hd⟩ := dist_of_walk _ (adjOf_Symm A) hn hw
+  have : reachable (bfsAll (adjOf A)) 0 u = true := (reach_iff _ 0 u).2 ⟨d, hd⟩
+  rw [this] at hr; cases hr
+
+/-- non-vacuity: `G32` (components {0,1,2} and {3,4}) is disconnected and has a unique largest component;
+    relabelled by `[3,0,4,1,2]` (the star becomes the vertices 1,3,4) it still yields the star's block,
+    here with the centre in first position again -/
+example : UniqueLargest (adjOf G32) := ⟨0, by decide, by decide⟩
+example : makeDist (sub 0 [3, 0, 4, 1, 2] G32) = .ok ⟨[[0,1,1],[1,0,2],[1,2,0]], true, .i8⟩ := by decide
+
+/-- the path 0–1–2 next to the triangle 3–4–5: two largest components of size 3 that are not isometric -/
+def P3K3 : Mat :=
+  [[0,1,0,0,0,0],[0,0,1,0,0,0],[0,0,0,0,0,0],[0,0,0,0,1,1],[0,0,0,0,0,1],[0,0,0,0,0,0]]
+
+/-- **the tie exception**: with two largest components the first one (smallest vertex) is taken; the
+    relabelling `[3,4,5,0,1,2]` swaps the two and the fallback then returns the triangle's metric
+    instead of the path's — not a relabelling of the same block (largest entries 1 and 2). -/
+theorem tie_relabel_selects_other_component :
+    ¬ UniqueLargest (adjOf P3K3) ∧
+    makeDist P3K3 = .ok ⟨[[0,1,2],[1,0,1],[2,1,0]], true, .i8⟩ ∧
+    makeDist (sub 0 [3, 4, 5, 0, 1, 2] P3K3) = .ok ⟨[[0,1,1],[1,0,1],[1,1,0]], true, .i8⟩ := by
+  refine ⟨?_, by decide, by decide⟩
+  rintro ⟨v, hv, h⟩
+  have hv' : v < 6 := hv
+  have key : ∀ v, v < 6 → ∃ u, u < 6 ∧ reachable (bfsAll (adjOf P3K3)) v u = false ∧
+      ¬ compSize (adjOf P3K3) u < compSize (adjOf P3K3) v := by decide
+  obtain ⟨u, hu, hr, hn⟩ := key v hv'
+  exact hn (h u hu hr)
 
 /-! ## 4. Integer type -/
 
